@@ -49,7 +49,8 @@ LEVEL_TEXT = ('Histories of commits on one object, repeated equal declarations, 
               '(C04_late_addition_refused), a refusal names the phase of the last executed action, at every step the action handed out is '
               'the first pending action of the smallest pending phase (C04_run_first_pending), a raising callable cuts the run '
               '(C04_raising_callable_cuts_the_run); per group pass the conflict keys equal the specification\'s contested set in any resolver state '
-              '(C04_group_conflicts_are_spec_contested) and the discard step is an order-preserving filter; the full equality with spec_exec '
+              '(C04_group_conflicts_are_spec_contested) and the discard step is an order-preserving filter; after a (re-)declaration every order group is the specification\'s at_phase of the pool, '
+              'forces what the specification forces and the first group is the smallest pending phase (C04_restart_group_is_spec_phase); the full equality with spec_exec '
               'for re-entrant programs is compared on every case, not proved. '
               'Machine-checked theorems about an executable model of execute_actions/resolveConflicts that follows the '
               'code statement by statement (generator suspension included); the declarative commit specification is a '
